@@ -296,6 +296,136 @@ def netlist_tree(case):
     return {"Modules": mods, "Nets": []}
 
 
+# --------------------------------------------------------------------------
+# extra stream: input forms, names, orders, sizes, exact ties
+# --------------------------------------------------------------------------
+TRICKY_NAMES = ["H1", "H1_0", "H1_io", "H1_1", "H10", "M", "M_", "M1", "M10", "_", "_0", "__", "yes", "no", "null", "on",
+                "off", "true", "y", "n", "x", "A_", "a", "A"]
+
+
+def rename(case, rng):
+    mods = case["modules"]
+    new = rng.sample(TRICKY_NAMES, len(mods)) if len(mods) <= len(TRICKY_NAMES) else None
+    if new is None:
+        return case
+    table = {m["name"]: n for m, n in zip(mods, new)}
+    case = dict(case, modules=[dict(m, name=table[m["name"]]) for m in mods])
+    if "ops" in case:
+        case["ops"] = [[op[0], table[op[1]]] + list(op[2:]) if op[0] not in ("probe", "alloc") else op for op in case["ops"]]
+    return case
+
+
+def gen_tie(rng):
+    """direct form: a fixed module whose share of a cell is EXACTLY the tolerance 1e-6 of _detect_fixed_rectangles
+    (neither 'below' nor 'within the tolerance of 1': the assertion fails), just below it, and just above"""
+    e = F(FEPS)
+    k = rng.choice([10, 20, 30])
+    cw = F(1, 2 ** k)                                   # cell [0, cw] x [0, h]
+    h = rng.choice([F(1), F(2), F(1, 2)])
+    how = rng.choice(["exact", "below", "above"])
+    t = e * cw * {"exact": 1, "below": F(2 ** 20 - 1, 2 ** 20), "above": F(2 ** 20 + 1, 2 ** 20)}[how]
+    cells = [{"cx": cw / 2, "cy": h / 2, "w": cw, "h": h, "fixed": False, "hard": False, "region": "_", "loc": "NOPOLY"},
+             {"cx": cw + 1, "cy": h / 2, "w": F(2), "h": h, "fixed": False, "hard": False, "region": "_", "loc": "NOPOLY"}]
+    # the fixed module: [-t, t] x [0, h] (centre 0: representable), sharing t * h with the first cell
+    mods = [{"name": "F0", "kind": "fixed", "rects": [[F(0), h / 2, 2 * t, h]]},
+            {"name": "S1", "kind": "soft", "area": F(1), "center": [cw + 1, h / 2], "rects": []}]
+    return {"stream": "exact", "form": "direct", "cells": cells, "modules": mods, "inc0": False,
+            "features": ["direct", "tie-" + how], "regions": [], "refine": None}
+
+
+def gen_extra(rng):
+    kind = rng.choice(["inform", "inform", "names", "order", "size-cells", "size-cells", "size-modules", "tie"])
+    if kind == "tie":
+        return gen_tie(rng)
+    if kind == "size-cells":
+        q = F(1, 4)
+        if rng.random() < 0.5:
+            nr, nc = rng.choice([(3, 3), (2, 5), (5, 2), (4, 4), (4, 8), (8, 8), (10, 10), (1, 16), (3, 11)])
+            W, H = nc * F(rng.randrange(1, 5), 4), nr * F(rng.randrange(1, 5), 4)
+            refine = ["grid", nr, nc]
+        else:
+            W, H = F(rng.randrange(8, 33), 4), F(rng.randrange(8, 33), 4)
+            refine = ["split", rng.choice([F(3, 2), F(2), F(3)]), rng.choice([9, 10, 15, 16, 17, 32, 33, 64, 100])]
+        feats = ["size-cells"]
+        mods = gen_modules(rng, W, H, q, feats, SIDES, None)
+        if not mods:
+            mods = [{"name": "S0", "kind": "soft", "area": F(4), "center": [W / 2, H / 2], "rects": []}]
+        return {"stream": "exact", "form": "die", "W": W, "H": H, "regions": [], "modules": mods, "refine": refine,
+                "inc0": rng.random() < 0.3, "features": sorted(set(feats))}
+    case = gen_case(rng, "exact")
+    while case.get("form") == "direct":
+        case = gen_case(rng, "exact")
+    feats = set(case["features"]) | {kind}
+    if kind == "inform":
+        case["inform"] = {"net": rng.choice(["text", "file", "dict"]), "die": rng.choice(["text", "file", "WxH", "dict"]),
+                          "ints": rng.random() < 0.5}
+        if rng.random() < 0.4:
+            case = rename(case, rng)
+    elif kind == "names":
+        case = rename(case, rng)
+    elif kind == "order":
+        regs = list(case["regions"])
+        how = rng.choice(["reversed", "shuffled", "top-down"])
+        if how == "reversed":
+            regs.reverse()
+        elif how == "shuffled":
+            rng.shuffle(regs)
+        else:
+            regs.sort(key=lambda r: (-r[1], -r[0]))
+        mods = []
+        for m in case["modules"][::-1]:
+            rs = list(m["rects"])
+            rng.shuffle(rs)
+            mods.append(dict(m, rects=rs))
+        case = dict(case, regions=regs, modules=mods)
+    elif kind == "size-modules":
+        W, H = case["W"], case["H"]
+        mods = [m for m in case["modules"] if m["kind"] == "fixed"]
+        pool = []
+        while len(pool) < rng.choice([9, 10, 11, 16]):
+            pool += gen_modules(rng, W, H, F(1, 4), [], SIDES, None)
+        for i, m in enumerate(pool):
+            m["name"] = f"{m['name'][0]}{i}"              # S1 ... S10, S11: names that are prefixes of each other
+        case = dict(case, modules=mods + pool)
+    case["features"] = sorted(feats)
+    return case
+
+
+def as_input(tree, how, ints):
+    """hand the tree over in another of the forms Netlist / Die accept: YAML text, a file name, (die only) '<W>x<H>'"""
+    import io
+    import os
+    import tempfile
+    from ruamel.yaml import YAML
+
+    def conv(x):
+        if isinstance(x, dict):
+            return {k: conv(v) for k, v in x.items()}
+        if isinstance(x, list):
+            return [conv(v) for v in x]
+        if ints and isinstance(x, float) and x == int(x):
+            return int(x)
+        return x
+    tree = conv(tree)
+    if how == "dict":
+        return tree, None
+    if how == "WxH":
+        if "regions" in tree:
+            return tree, None
+        return f"{tree['width']!r}x{tree['height']!r}", None
+    y = YAML(typ="safe")
+    y.default_flow_style = None
+    buf = io.StringIO()
+    y.dump(tree, buf)
+    text = buf.getvalue()
+    if how == "text" and ": " in text:
+        return text, None
+    fd, path = tempfile.mkstemp(suffix=".yaml", prefix="c03_")
+    with os.fdopen(fd, "w") as f:
+        f.write(text)
+    return path, path
+
+
 def classify(e):
     msg = str(e)
     if msg == "RCells":
@@ -324,9 +454,13 @@ def run_impl(case):
     from frame.netlist.netlist import Netlist
     from frame.allocation.allocation import Allocation, create_initial_allocation
     Rectangle.undefine_epsilon()
+    tmp = []
+    inform = case.get("inform", {})
     try:
         try:
-            netlist = Netlist(netlist_tree(case))
+            net_in, p = as_input(netlist_tree(case), inform.get("net", "dict"), inform.get("ints", False))
+            tmp.append(p)
+            netlist = Netlist(net_in)
             if case.get("form") == "direct":
                 cells = [fr.mk_rect(d) for d in case["cells"]]
                 refinable, fixed = cells, []
@@ -334,7 +468,9 @@ def run_impl(case):
                 tree = {"width": float(case["W"]), "height": float(case["H"])}
                 if case["regions"]:
                     tree["regions"] = fl(case["regions"])
-                die = Die(tree, netlist)
+                die_in, p = as_input(tree, inform.get("die", "dict"), inform.get("ints", False))
+                tmp.append(p)
+                die = Die(die_in, netlist)
                 rf = case["refine"]
                 if rf and rf[0] == "grid":
                     die.initial_grid(rf[1], rf[2])
@@ -369,6 +505,9 @@ def run_impl(case):
         return obs
     finally:
         Rectangle.undefine_epsilon()
+        for p in tmp:
+            if p:
+                __import__("os").unlink(p)
 
 
 # --------------------------------------------------------------------------
@@ -829,7 +968,13 @@ def gen_hist(rng):
         return True
 
     def delta():
-        return F(rng.randrange(-12, 13), 4), F(rng.randrange(-12, 13), 4)
+        dx, dy = F(rng.randrange(-12, 13), 4), F(rng.randrange(-12, 13), 4)
+        if rng.random() < 0.25:                     # an increment of exactly 0 in one axis only
+            if rng.random() < 0.5:
+                dx = F(0)
+            else:
+                dy = F(0)
+        return dx, dy
 
     def alloc(inc0=None):
         ops.append(["alloc", case["inc0"] if inc0 is None else inc0])
@@ -1013,7 +1158,12 @@ def run(ctx, out, replay=None):
                 "touching no cell; soft with 1-3 rectangles; hard with 1-3 rectangles) plus the fixed modules, in random order, "
                 "overlapping each other, blockages and fixed cells; with and without include_area_zero; a few inputs outside "
                 "the property (own rectangles overlapping, missing centre) for the reject clauses of the model; non-trivial = "
-                "two or more modules, a region, or a refined die; distinct by canonical hash.  Object histories: such a die-form "
+                "two or more modules, a region, or a refined die; distinct by canonical hash.  Extra stream: the netlist / die handed "
+                "over as YAML text, as a file name, the die as '<W>x<H>', integral numbers as ints; module names that are prefixes "
+                "of each other or YAML-special (H1 / H1_0 / H1_io / M / M_ / yes / null / on ...), S1 .. S16; regions reversed / "
+                "shuffled / top-down, modules reversed, rectangles of a module shuffled; dies gridded into 9 .. 100 cells or split "
+                "into 9 .. 100 regions; 9 - 16 movable modules; a fixed module whose share of a cell is exactly the tolerance "
+                "1e-6, just below and just above it.  Object histories: such a die-form "
                 "exact case with at least one movable module, whose Netlist / Die objects go through 2-12 operations before the "
                 "final allocation - templates: read the boxes then move a module in place (stale-box), allocate / move / "
                 "allocate, set the module centre and recenter_rectangles, allocate then move the centre of a module that was "
@@ -1025,6 +1175,9 @@ def run(ctx, out, replay=None):
     cases += fr.load_corpus("C03")
     while len(cases) < n:
         cases.append(gen_case(ctx.rng))
+    xrng = __import__("random").Random(f"C03-extra-{ctx.seed}")
+    for _ in range(250 if ctx.quick() else 2500):
+        cases.append(gen_extra(xrng))
     nh = 700 if ctx.quick() else 6000
     hrng = __import__("random").Random(f"C03-hist-{ctx.seed}")
     for _ in range(nh):
